@@ -117,3 +117,19 @@ Theorem C01_every_tensor : forall st t seed st' k,
     = dot Z 0%Z Z.add Z.mul s (nth t (tangents Z Z.add delta (cut (g_eff st) k)) []).
 Proof. exact backward_intermediate. Qed.
 Print Assumptions C01_every_tensor.
+
+(* (9) "The result does not depend on the order in which independent sub-expressions ... were written", componentwise
+   over Z: ANY two processing orders that list every tensor before its non-constant inputs (the DFS order of (2) for
+   either way of writing the operands is one) leave the same entries in the gradient of every non-constant leaf. *)
+From MG Require Import Proofs.OrderIndepP.
+Theorem C01_order_independent : forall (P : list (node Z)),
+  wf Z P -> ops_ok Z 0%Z Z.add Z.mul P ->
+  forall (L : nat) (seed : list Z) (o1 o2 : list nat),
+  L < length P -> valid_rest Z P o1 -> In L o1 -> valid_rest Z P o2 -> In L o2 ->
+  let G0 := upd Z Z.add (repeat [] (length P)) L seed in
+  let G1 := sweepL Z Z.add P o1 G0 in
+  let G2 := sweepL Z Z.add P o2 G0 in
+  forall j, is_free_leaf Z (nth j P (Leaf Z true)) = true ->
+  forall i, nth i (nth j G1 []) 0%Z = nth i (nth j G2 []) 0%Z.
+Proof. exact order_independent_Z. Qed.
+Print Assumptions C01_order_independent.
